@@ -231,7 +231,7 @@ TypeTok(t, s) == LET n == CASE t = 16 -> <<84, 88, 84>> [] t = 2 -> <<78, 83>> [
                               [] t = 6 -> <<83, 79, 65>> [] t = 5 -> <<67, 78, 65, 77, 69>>
                               [] t = 48 -> <<68, 78, 83, 75, 69, 89>> [] t = 43 -> <<68, 83>>
                               [] t = 61 -> <<79, 80, 69, 78, 80, 71, 80, 75, 69, 89>> [] t = 50 -> <<78, 83, 69, 67, 51>>
-                 IN IF s = 1 THEN [i \in 1..Len(n) |-> n[i] + 32]           \* lower case
+                 IN IF s = 1 THEN LowerSeq(n)                               \* lower case
                     ELSE IF s \in {3, 4} THEN <<84, 89, 80, 69>> \o DecDigits(t)    \* TYPEnn
                     ELSE n
 
@@ -309,10 +309,14 @@ EmitCase(t, o, a) ==
       \* every route occurs with every kind of entry: it follows the length
       route == Routes[(Len(t) % Len(Routes)) + 1]
       inp == [text |-> t, origin |-> WireOf(Origin0), class |-> -1, act |-> a,
-              route |-> route, chunk |-> 1 + (Len(t) % 7), allow_invalid |-> ~rv, parsed |-> TRUE]
-      WithParsed(x) == IF DOMAIN x = {"entries", "err"} THEN [entries |-> x.entries, err |-> x.err, parsed |-> ParsedOf(x)] ELSE x
+              route |-> route, allow_invalid |-> ~rv, parsed |-> BuilderOf(ParsedOf(o))]
+      WithParsedD(x, dv) == IF DOMAIN x = {"entries", "err"} THEN [entries |-> x.entries, err |-> x.err, parsed |-> ParsedOfD(x, dv)] ELSE x
+      WithParsed(x) == WithParsedD(x, {})
+      PD == "D_parsed_no_apex_unwrap"
   IN IF "skip" \in DOMAIN dm THEN TRUE
-     ELSE IF "none" \in DOMAIN dm THEN PrintT("CASE " \o ToJson([in |-> inp, exp |-> WithParsed(o)]))
+     ELSE IF "none" \in DOMAIN dm
+     THEN IF WithParsedD(o, {PD}) = WithParsed(o) THEN PrintT("CASE " \o ToJson([in |-> inp, exp |-> WithParsed(o)]))
+          ELSE PrintT("CASE " \o ToJson([in |-> inp, exp |-> WithParsed(o), dev |-> [d \in {PD} |-> WithParsedD(o, {PD})]]))
      ELSE PrintT("CASE " \o ToJson([in |-> inp, exp |-> WithParsed(o), dev |-> [d \in DOMAIN dm |-> WithParsed(dm[d])]]))
 
 Step(e, ly, emit, a) ==
